@@ -77,6 +77,19 @@ def fq_sqrt(a):
     return s
 
 
+def fq_cuberoot(c):
+    """some cube root of c in Fq, or None (3 divides q-1 exactly once)"""
+    c %= q
+    if c == 0:
+        return 0
+    m = (q - 1) // 3
+    if pow(c, m, q) != 1:
+        return None
+    x = pow(c, pow(3, -1, m), q)
+    assert pow(x, 3, q) == c
+    return x
+
+
 def f2issq(a):
     if a == (0, 0):
         return True
